@@ -267,6 +267,25 @@ namespace
 	&& dwarf_attr (die, DW_AT_import, &at_import) != nullptr
 	&& dwarf_formref_die (&at_import, &cudie) != nullptr)
       {
+	// A unit that imports itself, directly or through the units
+	// that it imports (malformed DWARF), would be inlined for
+	// ever.  Don't inline a unit into itself: leave the
+	// DW_TAG_imported_unit DIE in place.
+	{
+	  auto in_unit_of = [&cudie] (Dwarf_Die &d)
+	    {
+	      Dwarf_Die root;
+	      return dwarf_diecu (&d, &root, nullptr, nullptr) != nullptr
+		&& root.addr == cudie.addr;
+	    };
+
+	  if (in_unit_of (*die))
+	    return false;
+	  for (auto imp = import; imp != nullptr; imp = imp->get_import ())
+	    if (in_unit_of (imp->get_die ()))
+	      return false;
+	}
+
 	// Do this first, before we bump the iterator and DIE gets
 	// invalidated.
 	import = std::make_shared <value_die> (dwctx, import, *die, 0,
